@@ -146,7 +146,7 @@ Section CTop.
       length q0 = 1 -> length (last qrest q0) = 1 ->
       chain_riso (lens (q0 :: qrest)) (A0 :: rest) ->
       Forall (argok ok) (sweep_args step A0 q0 rest qrest) ->
-      (forall T, (exists As qs, sweep step A0 q0 rest qrest = Some (As, qs, T)) -> abs_ok (get (sel T 0) 0 0)) ->
+      (forall T, (exists As qs, sweep step A0 q0 rest qrest = Some (As, qs, T)) -> is111 T = true -> abs_ok (get (sel T 0) 0 0)) ->
       exists As qs sc,
         compress_core cabs step (A0 :: rest) (q0 :: qrest) = Some (As, q0 :: qs, sc) /\
         length As = S (length rest) /\
@@ -186,7 +186,7 @@ Section CTop.
         as (As & qs & T & ES & H111 & HlAs & HsAs & HqAs & HpAs & HlastAs & Hbb & Hiso & Hlen & Heps & Hnorm & Hamp & Hovl).
       set (t := get (sel T 0) 0 0) in *.
       set (args := sweep_args step A0 q0 rest qrest) in *.
-      assert (Habs' : abs_ok t) by (apply Habs; eauto).
+      assert (Habs' : abs_ok t) by (apply Habs; [eauto|exact H111]).
       destruct Habs' as [Hsc0 Hscsq].
       assert (Hprod : flt F (f0 F) (fprod (map (fun a => one_minus (argeps epsf a)) args))).
       { apply fprod_pos. intros x Hx. apply in_map_iff in Hx. destruct Hx as (a & <- & Ha).
@@ -280,7 +280,7 @@ Section CTop.
                 (epsL (m_qd p) tol dsvd pick) (local_left_svd_spec F d (m_qd p) tol dsvd pick Hd Lqd Htol0 Htol1)
                 A0 rest q0 qrest Hshape Hsparse Hpos1 Hhd1 Hlast' Hriso1 Hsvd)
       as (As & qs & sc & EC & HlAs & HsAs & HqAs & HpAs & HlastAs & Hbb & Hli & Hn1' & Hsc0 & Hlen & Heps & Hsq & Hex & Hovl).
-    { intros T (As & qs & ES). apply Habs. unfold compress_T. cbn [negb]. rewrite E1. cbn [m_qd m_qD m_A]. rewrite ES. reflexivity. }
+    { intros T (As & qs & ES) _. apply Habs. unfold compress_T. cbn [negb]. rewrite E1. cbn [m_qd m_qD m_A]. rewrite ES. reflexivity. }
     exists (mkmps (m_qd p) (q0 :: qrest) (A0 :: rest)), (mkmps (m_qd p) (q0 :: qs) As), nrm, sc.
     split; [exact E1|].
     split. { unfold mps_compress. cbn [negb]. rewrite E1. cbn [m_qd m_qD m_A]. rewrite EC. reflexivity. }
